@@ -208,6 +208,22 @@ pub fn gen_case(c: &mut Choices) -> Case {
     if g.c.chance(1, 12) {
         return shadow_chain_case(&mut g);
     }
+    if g.c.chance(1, 16) {
+        // `[ck]: T` members (named by a constant's value), written inline so that no utility
+        // type has to look through the constant
+        g.allow_computed_ident = true;
+        let m: Vec<Prop> = g.prop_map(2, 5);
+        g.allow_computed_ident = false;
+        let members = m.iter().map(|p| p.member()).collect::<Vec<_>>().join("; ");
+        let consts = g.decls.iter().map(|d| d.text.clone()).collect::<Vec<_>>().join("\n");
+        let src = format!("import {{ defineComponent }} from \"vue\";\n{consts}\nexport const Comp = defineComponent((props: {{ {members} }}) => () => null);\n");
+        let mut case = Case::new(src, "tsx", Some(RT.into()));
+        case.labels = g.labels.clone();
+        let expected: Vec<Value> = m.iter().map(|p| json!({"key": p.key, "required": !p.optional})).collect();
+        case.extra = json!({"expected": expected, "negative": false});
+        case.nontrivial = case.labels.iter().any(|l| l == "computed-identifier-key");
+        return case;
+    }
     let m: Vec<Prop> = g.prop_map(1, 7);
     let enc = g.enc(&m, 0);
     let local = g.c.chance(1, 5);
@@ -248,7 +264,7 @@ impl Property for C16 {
         "C16"
     }
     fn rule(&self) -> String {
-        "a finite prop map (1-7 keys: identifier / quoted / hyphenated / spaced keys; property, method and getter members; optional flags) and a random encoding tree that partitions the map and wraps the parts with: inline literal, alias, alias chain (1-3 hops), interface (merged declarations, extends of 1-2 named parents recursively), intersection, parentheses, export, Partial / Required (over re-flagged maps), Pick / Omit over a widened map (keys as literal union, alias of union, nested union), indexed access Box[\"k\"]; declarations placed before or after the call; module scope, or a local function scope with same-named decoys outside where a random prefix of the declarations stays at module level (local declarations then reach outer ones through extends / references); a local declaration shadowing an outer namesake that it reaches through an intermediate outer declaration; four setup forms (arrow, function, destructured, defaulted parameter). Negative cases (imported type, conditional / mapped / keyof / unknown reference) must yield >=1 error diagnostic. Oracle: the mock defineComponent records its arguments; Object.keys(options.props) as a set == declared key set, props[k].required == !optional(k); the module is evaluated in node after erasing TS syntax. non-trivial = encoding depth >=2, a declaration after the call, or a shadowing decoy; distinct by hash(source)".into()
+        "a finite prop map (1-7 keys: identifier / quoted / hyphenated / spaced keys; property, method and getter members; optional flags) and a random encoding tree that partitions the map and wraps the parts with: inline literal, alias, alias chain (1-3 hops), interface (merged declarations, extends of 1-2 named parents recursively), intersection, parentheses, export, Partial / Required (over re-flagged maps), Pick / Omit over a widened map (keys as literal union, alias of union, nested union), indexed access Box[\"k\"]; declarations placed before or after the call; module scope, or a local function scope with same-named decoys outside where a random prefix of the declarations stays at module level (local declarations then reach outer ones through extends / references); a local declaration shadowing an outer namesake that it reaches through an intermediate outer declaration; members named by a constant (`[ck]: T`); four setup forms (arrow, function, destructured, defaulted parameter). Negative cases (imported type, conditional / mapped / keyof / unknown reference) must yield >=1 error diagnostic. Oracle: the mock defineComponent records its arguments; Object.keys(options.props) as a set == declared key set, props[k].required == !optional(k); the module is evaluated in node after erasing TS syntax. non-trivial = encoding depth >=2, a declaration after the call, or a shadowing decoy; distinct by hash(source)".into()
     }
     fn assumptions(&self) -> Vec<String> {
         vec![
